@@ -998,8 +998,16 @@ class Extractor {
                     t["s"] = sid(T);
                     t["l"] = lineOf(T->getBeginLoc());
                     t["tempdtor"] = B->getTerminator().isTemporaryDtorsBranch();
-                    if (const Stmt* C = B->getTerminatorCondition(false))
+                    if (const Stmt* C = B->getTerminatorCondition(false)) {
                         t["cond"] = sid(C);
+                        // a condition that is a constant expression in this instantiation (`if constexpr`, a trait)
+                        if (auto* CE = dyn_cast<Expr>(C)) {
+                            bool val = false;
+                            if (!CE->isValueDependent() && !CE->isTypeDependent() && CE->getType()->isScalarType() &&
+                                CE->isEvaluatable(Ctx, Expr::SE_NoSideEffects) && CE->EvaluateAsBooleanCondition(val, Ctx))
+                                t["cval"] = val;
+                        }
+                    }
                     if (!seen.count(T)) walk(T);
                     b["term"] = std::move(t);
                 }
